@@ -542,10 +542,12 @@ func (s *connectableObservableImpl[T]) Connect() Subscription {
 //
 // The Subscription might be already disposed when the Connect method returns.
 func (s *connectableObservableImpl[T]) ConnectWithContext(ctx context.Context) Subscription {
+	verifPoint("observable:ConnectWithContext:lock#0", s)
 	s.mu.Lock()
 	if s.subscription == nil || s.subscription.IsClosed() {
 		s.subscription = s.source.SubscribeWithContext(ctx, s.subject)
 		s.mu.Unlock()
+		verifPoint("observable:ConnectWithContext:unlocked#0", s)
 		s.subscription.Add(func() {
 			if s.config.ResetOnDisconnect {
 				s.subject = s.config.Connector()
@@ -553,6 +555,7 @@ func (s *connectableObservableImpl[T]) ConnectWithContext(ctx context.Context) S
 		})
 	} else {
 		s.mu.Unlock()
+		verifPoint("observable:ConnectWithContext:unlocked#1", s)
 	}
 
 	return s.subscription
